@@ -1,5 +1,5 @@
 """C05 for sentences the tree is the derivation tree with node operators applied (narrow)."""
-from .. import tab, noderules
+from .. import tab, noderules, skel
 from . import common
 
 LEVEL = "other"
@@ -7,7 +7,7 @@ EXHAUSTIVE = False
 EXPLANATION = ("Three structural clauses: (TAB) the elision-classification algebra of the semantic pass equals its path-set meaning on all 21 inputs "
                "(exhaustive); (KINDSET) the node kinds each generated rule function can close are exactly the rule's own name, its renames and its "
                "creations as written in the grammar text (independent reader llwspec), every written rename/creation being producible; (FRESH) a "
-               "close inside a loop uses a kind assigned in the same iteration; (MARKPOS) the mark of a node creation lies inside the rule's own node. Sampled grammars for the generated-code rules. That the tree equals "
+               "close inside a loop uses a kind assigned in the same iteration; (MARKPOS) the mark of a node creation lies inside the rule's own node; (S19) an empty node created by a marker or a conditional elision behind a skipped token is pulled into the non-skip length, so it stays a child of its rule. Sampled grammars for the generated-code rules. That the tree equals "
                "the derivation tree (children in source order, marker/creation extents, actions once per visit) is not decided.")
 
 
@@ -16,4 +16,5 @@ def run(ctx, rep):
     noderules.kindset_rule(ctx, rep)
     noderules.fresh_rule(ctx, rep)
     noderules.markpos_rule(ctx, rep)
+    common.s_rules(ctx, rep, [lambda i, r, o: skel.s19_close_bump(i, r)])
     common.corpus_note(ctx, rep)
